@@ -110,7 +110,8 @@ def run(tier):
         'lengths are floored to 1e-12 per segment in the model; costs are compared with the binary64 implementation to 1e-6',
         'segment penalty > 0: optimality is claimed within the taut class only (edges passing inValidRegion, bends passing '
         'validateBendPoint) - DESIGN 5.4; over all polylines the penalised cost has no minimum on the visibility graph',
-        'classical facts not proved: a shortest obstacle-avoiding path bends only at obstacle corners; A* with an admissible heuristic is optimal',
+        'classical fact not proved: a shortest obstacle-avoiding path bends only at obstacle corners; A* with a consistent heuristic is proved optimal '
+        'for an abstract best-first search (Graph/AStar.v) - libavoid\'s own A* is tied by cost equality only',
         'with a shape buffer the model routes around the routing polygons printed by the harness (rectangles only, exact)']
     exe = A.harness()
     drv = A.driver()
@@ -194,8 +195,9 @@ META = {
                 'run the cost of the implementation\'s displayRoute equals the extracted model optimum to 1e-6 (penalties 0, 1, 10; buffer 0 and, '
                 'for rectangles, > 0) and the compiled validateBendPoint equals its spec decider on an exhaustive grid.',
         'design_ref': 'DESIGN.md 5.4'},
-    'level_note': 'partial: proof on the model. A* itself, the rotational sweep and that Dijkstra\'s loop always passes its own certificate are not '
-                  'proved (the explicit outcome SearchFail is excluded in every theorem and reported if it occurs); classical facts assumed: shortest '
+    'level_note': 'partial: proof on the model. The certifying Dijkstra is proved total (cert_dijkstra_total: never Fail for in-range, non-negative, '
+                  'non-parallel edges; route_plain_total / route_taut_total; SearchFail is still reported if it occurs); libavoid\'s A* and the rotational '
+                  'sweep are not modelled (A* optimality is proved for an abstract best-first search only); classical facts assumed: shortest '
                   'obstacle-avoiding paths bend only at obstacle corners; for penalty > 0 optimality is claimed within the taut class only. '
                   'Trusted: Coq kernel, cpp2v, extraction, drivers, exact-rational model of binary64 on integer scenes.',
     'technique': 'Coq proof (certifying Dijkstra, exact visibility) + cost correspondence implementation vs extracted model',
